@@ -5,7 +5,7 @@ import os
 import vlib
 from vlib import sh, BUILD, COQ
 
-HARNESS_TOOLS = ["purefh"]
+HARNESS_TOOLS = ["purefh", "ledgerh"]
 
 
 def _tool(name, **kw):
@@ -73,6 +73,141 @@ def replay_C05(ctx, path):
     return 0
 
 
+# ------------------------------------------------------------------ ledger properties (shared harness run)
+import concurrent.futures
+import hashlib
+import re
+import shutil
+
+
+def _dir_hash(paths):
+    h = hashlib.sha256()
+    for base in paths:
+        if os.path.isfile(base):
+            h.update(open(base, "rb").read())
+            continue
+        for dp, dn, fn in sorted(os.walk(base)):
+            dn.sort()
+            for f in sorted(fn):
+                if f.endswith((".go", ".v", ".mod")):
+                    h.update(f.encode())
+                    h.update(open(os.path.join(dp, f), "rb").read())
+    return h.hexdigest()[:12]
+
+
+LEDGER_ATTR = {  # op kind of the first unaccepted step -> properties whose model part is then untied
+    "balance": ["C06"], "truncate": ["C07"], "load": ["C14"], "retry": ["C13", "C03"],
+    "read": ["C07", "C03"], "readtrx": ["C07", "C03"],
+}
+LEDGER_ALL = ["C01", "C02", "C03", "C09", "C10", "C13"]
+
+
+def ledger_run(ctx, tier):
+    """Run (or reuse) the shared ledger harness + acceptor for this /repo content, seed and tier."""
+    key = "%s-%s-%s-%d" % (vlib.repo_fingerprint(), _dir_hash([os.path.join(vlib.HARNESS, "cmd", "ledgerh"),
+                           os.path.join(COQ, "Model"), os.path.join(COQ, "Run"), os.path.join(COQ, "Gen")]), tier, ctx.seed)
+    cdir = os.path.join(BUILD, "cache", "ledger", key)
+    os.makedirs(cdir, exist_ok=True)
+    import fcntl
+    with open(os.path.join(cdir, ".lock"), "w") as lk:
+        fcntl.flock(lk, fcntl.LOCK_EX)
+        res = os.path.join(cdir, "result.json")
+        if os.path.exists(res):
+            r = json.load(open(res))
+            r["cached"] = True
+            return r
+        tool = _tool("ledgerh")
+        with vlib.BuildLock():
+            rc, o, e = sh(["make", "-j16", "Run/CheckLedger.vo"], cwd=COQ, timeout=1500)
+        model_ok = rc == 0
+        rc, out, err = sh([tool, "-tier", tier, "-seed", str(ctx.seed), "-out", cdir], timeout=3000, cwd=cdir)
+        if rc != 0:
+            raise RuntimeError("ledgerh failed rc=%s: %s %s" % (rc, out[-2000:], err[-2000:]))
+        summ = json.load(open(os.path.join(cdir, "summary.json")))
+        mism = []
+        if not model_ok:
+            mism.append({"shard": "-", "trace": -1, "step": -1, "op": "model does not compile: " + (o + e)[-800:], "kind": "all"})
+        else:
+            q = []
+            for x in ("Base", "Gen", "Model", "Run"):
+                q += ["-Q", os.path.join(COQ, x), "Verif"]
+
+            def one(sh_name):
+                rc, o, e = sh(["coqc"] + q + [sh_name], cwd=cdir, timeout=2400)
+                return sh_name, rc, o + e
+            with concurrent.futures.ThreadPoolExecutor(max_workers=14) as ex:
+                for sh_name, rc, txt in ex.map(one, summ["shards"]):
+                    m = re.search(r"M\s*=\s*(\[.*?\])\s*:\s*list", txt, re.S)
+                    if rc != 0 or not m:
+                        mism.append({"shard": sh_name, "trace": -1, "step": -1, "op": "acceptor did not evaluate: " + txt[-600:], "kind": "all"})
+                        continue
+                    for t, k in re.findall(r"\((\d+)%nat,\s*(\d+)%nat\)", m.group(1)):
+                        ops = summ["shard_ops"][sh_name][int(t)]
+                        op = ops[int(k)] if int(k) < len(ops) else "?"
+                        mism.append({"shard": sh_name, "trace": int(t), "step": int(k), "op": op, "kind": op.split(" ")[0],
+                                     "prefix": ops[:int(k) + 1][-12:]})
+        for f in os.listdir(cdir):
+            if f.endswith((".vo", ".vok", ".vos", ".glob")) or f.startswith(".cases"):
+                os.remove(os.path.join(cdir, f))
+        r = {"summary": {k: v for k, v in summ.items() if k != "shard_ops"}, "mismatches": mism, "dir": cdir}
+        json.dump(r, open(res, "w"))
+        # keep the cache small: drop older entries
+        root = os.path.dirname(cdir)
+        ents = sorted((os.path.getmtime(os.path.join(root, d)), d) for d in os.listdir(root))
+        for _, d in ents[:-6]:
+            shutil.rmtree(os.path.join(root, d), ignore_errors=True)
+        r["cached"] = False
+        return r
+
+
+LEDGER_RULE = ("seeded histories on 1-3 real AccountingBook instances (proposals, gossip deliveries in any order, crafted vertices with arbitrary "
+               "parents/weights/sealers/corruptions, replays, retries, trusted-set edits, cancellation after k polls, balance queries, LoadDag of the "
+               "real stream); every step compared with the Coq model (result class + full snapshot projection); non-trivial = the history has at "
+               "least one admitted and one rejected operation and a vertex with two distinct parents; distinct = different operation logs")
+
+
+def make_ledger_check(prop, stat_prefixes):
+    def run(ctx, tier):
+        r = ledger_run(ctx, tier)
+        s = r["summary"]
+        viol = [{"key": v["key"], "what": "%s [trace %s step %s]" % (v["what"][:400], v["trace"], v["step"]), "detail": v}
+                for v in (s.get("violations") or []) if v["prop"] == prop or v["prop"] == "HARNESS"]
+        mism = []
+        for m in r["mismatches"]:
+            props_hit = LEDGER_ATTR.get(m["kind"], LEDGER_ALL if m["kind"] != "all" else None)
+            if props_hit is None or prop in props_hit:
+                mism.append(m)
+        stats = {k: v for k, v in s["stats"].items() if any(k.startswith(p) for p in stat_prefixes)}
+        return {
+            "evaluations": s["steps"], "distinct_nontrivial": s["distinct_nontrivial"], "rule": LEDGER_RULE,
+            "samples": s["samples"][:2], "mismatches": mism, "violations": viol,
+            "extra": {"scenarios": s["scenarios"], "traces": s["traces"], "scenarios_by_kind": s.get("scenarios_by_kind"),
+                      "branches_reached": stats, "harness_result_reused_from_cache": r.get("cached", False),
+                      "comparison": "coqc vm_compute: CheckLedger.mismatches over every trace (acceptor searches tip orders / tips)"},
+            "assumptions": ["the locked region of every ledger entry point is atomic (premise discharged by C18's lock discipline + race matrix)",
+                            "Vertex.verify outcome is an input of the ledger model (its correctness is C04)"],
+        }
+
+    def replay(ctx, path):
+        r = json.load(open(path))
+        print(json.dumps(r, indent=1)[:4000])
+        res = run(ctx, r.get("tier", "quick"))
+        keys = {v["key"] for v in res["violations"]}
+        want = (r.get("violation") or {}).get("key")
+        if (want and want in keys) or (not want and (res["mismatches"])):
+            print("VIOLATION property=%s replay=%s" % (prop, path))
+            return 1
+        print("replay: not reproduced on the current tree (seed %s)" % ctx.seed)
+        return 0
+    return {"run": run, "replay": replay}
+
+
 PROPS = {
     "C05": {"run": run_C05, "replay": replay_C05},
+    "C01": make_ledger_check("C01", ["c01.", "res.", "op."]),
+    "C02": make_ledger_check("C02", ["c02.", "op."]),
+    "C03": make_ledger_check("C03", ["res.", "op."]),
+    "C06": make_ledger_check("C06", ["c06.", "op.balance"]),
+    "C09": make_ledger_check("C09", ["res.", "op."]),
+    "C10": make_ledger_check("C10", ["res.", "op."]),
 }
